@@ -67,7 +67,8 @@ for name in names:
     open(fn, 'w').write(src.replace(old, new))
     try:
         env = dict(os.environ, VERIF_REPO=WT)
-        p = subprocess.run(['/venv/bin/python', '/verif/notes/X02_mutation_harness.py', name], env=env,
+        kinds = {T: "ttl,make,via", G: "range", S: "srow,s32cmp,s32add"}[path]
+        p = subprocess.run(['/venv/bin/python', '/verif/notes/X02_mutation_harness.py', name, kinds], env=env,
                            stdout=subprocess.PIPE, stderr=subprocess.STDOUT, text=True)
         lines = [x for x in p.stdout.splitlines() if x.startswith('RESULT')]
         print(lines[-1] if lines else "RESULT %s HARNESS-FAILED\n%s" % (name, p.stdout[-1500:]), flush=True)
